@@ -27,6 +27,8 @@ let idx_uid : (int, int) Hashtbl.t = Hashtbl.create 64
 let dummy_target : (int, int) Hashtbl.t = Hashtbl.create 8       (* external joiner dummy id -> target id *)
 let pending_nb : (int, (int * bool * z)) Hashtbl.t = Hashtbl.create 8
 let primary_ptr = ref 0
+let api_bad : string list ref = ref []
+let last_mig_req : (int * int, int * int) Hashtbl.t = Hashtbl.create 8
 let ext_joiner : (int, int) Hashtbl.t = Hashtbl.create 8         (* actor pointer -> dummy id of its current join *)
 let root_ptrs : (int, bool) Hashtbl.t = Hashtbl.create 8         (* root ULTs of the streams: outside the model *)
 
@@ -107,7 +109,17 @@ let () =
          | "K1015", [idx; ptr; _] -> Hashtbl.replace pool_of_ptr (int_of_string ptr) (int_of_string idx)
          | "K1017", [_; sp; up] -> Hashtbl.replace sched_unit (int_of_string sp) (int_of_string up);
            if !primary_ptr = 0 then begin primary_ptr := aptr; ignore (unit_id ln aptr) end
-         | "K1013", _ -> if !primary_ptr = 0 then begin primary_ptr := aptr; ignore (unit_id ln aptr) end
+         | "K1013", (op :: idx :: c :: _) ->
+           if !primary_ptr = 0 then begin primary_ptr := aptr; ignore (unit_id ln aptr) end;
+           if int_of_string op = Char.code 'M' then begin
+             let idx = int_of_string idx in
+             let cur_pool = (match Hashtbl.find_opt idx_uid idx with
+                 | Some u -> int_of_nat ((!cur).un (nat_of u)).upool
+                 | None -> (match Hashtbl.find_opt idx_ptr idx with
+                     | Some p -> (match Hashtbl.find_opt unit_of_ptr p with Some u -> int_of_nat ((!cur).un (nat_of u)).upool | None -> -1)
+                     | None -> -1)) in
+             Hashtbl.replace last_mig_req (aptr, idx) (int_of_string c, cur_pool)
+           end
          | "K1014", [op; idx; c] ->
            let op = int_of_string op and idx = int_of_string idx in
            if op = Char.code 'C' || op = Char.code 'c' then begin
@@ -118,6 +130,18 @@ let () =
                 apply ln desc (EJoinRet (nat_of a, nat_of u)) [u] [] []
               | None -> raise (Mismatch (Printf.sprintf "line=%d join of an unknown unit index %d" ln idx)))
            end else if op = Char.code 'x' then xjoin := (idx, int_of_string c) :: !xjoin
+           else if op = Char.code 'm' then begin
+             (* ABT_thread_migrate: the generator only issues it when another running stream exists *)
+             if int_of_string c <> 0 then api_bad := Printf.sprintf "ABT_thread_migrate(unit%d)-returned-%s" idx c :: !api_bad
+           end else if op = Char.code 'M' then begin
+             (* migrate_to_pool: rejected iff the target is the unit's current pool (all harness units are migratable) *)
+             (match Hashtbl.find_opt last_mig_req (aptr, idx), Hashtbl.find_opt idx_uid idx with
+              | Some (p, cur_pool), _ ->
+                let rc = int_of_string c in
+                if (p = cur_pool) <> (rc <> 0) then
+                  api_bad := Printf.sprintf "migrate_to_pool(unit%d,pool%d)-returned-%d-with-current-pool-%d" idx p rc cur_pool :: !api_bad
+              | _ -> ())
+           end
          | "K1010", [idx; _; _] -> let u = unit_id ln aptr in
            Hashtbl.replace idx_uid (int_of_string idx) u; Hashtbl.replace idx_ptr (int_of_string idx) aptr;
            apply ln desc (EStart (nat_of u)) [u] [] []
@@ -246,4 +270,5 @@ let () =
     Hashtbl.iter (fun idx u ->
         let r = (!cur).un (nat_of u) in
         if int_of_nat r.starts > 1 then bad := Printf.sprintf "model:unit%d-starts=%d" idx (int_of_nat r.starts) :: !bad) idx_uid;
+  bad := !bad @ !api_bad;
   if !bad = [] then print_endline "MON ok" else print_endline ("MONFAIL " ^ String.concat " " (List.rev !bad))
